@@ -450,7 +450,12 @@ class Life:
         t.epoch = r.pick([0, 4, 5, 10, 60])
         actors = self.users + [OWNER, STRANGER]
         order = r.shuffle(actors + ([r.pick(actors)] if r.chance(1, 2) else []))
+        paused_now = False
         for a in order:
+            if r.chance(1, 6):
+                t.call(OWNER, "unpause" if paused_now else "pause")
+                paused_now = not paused_now
+                t.dump()
             if a == OWNER:
                 t.call(OWNER, "claimPayment")
                 if r.chance(1, 3):
@@ -465,8 +470,17 @@ class Life:
             for _ in range(r.range(2, 8)):
                 t.round += r.pick([1, 2, 5, 10, 30])
                 a = r.pick(self.users)
+                if r.chance(1, 4):
+                    # a pause in the middle of the vesting period: claims (first and repeated) while paused
+                    t.call(OWNER, "pause")
+                    t.dump()
+                    for b in r.shuffle(self.users)[:3]:
+                        t.call(b, "claim")
+                        t.dump()
+                    t.call(OWNER, "unpause")
                 t.call(a, "claim")
                 t.dump()
+        t.call(OWNER, "unpause")
         for a in self.users:
             t.call(a, "claim")
         t.call(OWNER, "claimPayment")
